@@ -8,31 +8,29 @@ Import ListNotations.
 Theorem raw_shape_recognised : raw_shape_ok = true.
 Proof. reflexivity. Qed.
 
-Section Fresh.
-  Variables (d : fd) (p : path) (chunks : list content) (st : state) (fsz : nat).
-  Hypothesis wf : fs_wf st.
-  Hypothesis fsz_pos : fsz <> 0.
-  Let at_ (j : nat) : content := content_at (crash (writer_trace d p chunks) j st) p.
+(* the frame count a fresh reader computes never decreases, whatever the
+   chunking and wherever between two writer calls it looks
+   (at_ d p chunks st j = content of the field file after j writer calls) *)
+Theorem nframes_monotone : forall d p chunks st fsz, fs_wf st -> fsz <> 0 ->
+  forall j j', j <= j' -> nframes fsz (at_ d p chunks st j) <= nframes fsz (at_ d p chunks st j').
+Proof. exact nframes_monotone_lemma. Qed.
 
-  (* the frame count a fresh reader computes never decreases, whatever the
-     chunking and wherever between two writer calls it looks *)
-  Theorem nframes_monotone : forall j j', j <= j' -> nframes fsz (at_ j) <= nframes fsz (at_ j').
-  Proof. intros. apply nframes_prefix_mono; auto. apply writer_prefix; auto. Qed.
+(* every frame below the reported count holds exactly the bytes the writer
+   wrote (and will have written at the end) for that frame *)
+Theorem prefix_consistent : forall d p chunks st fsz, fs_wf st -> fsz <> 0 ->
+  forall j f, f < nframes fsz (at_ d p chunks st j) ->
+  frame fsz (at_ d p chunks st j) f = frame fsz (content_at st p ++ concat chunks) f.
+Proof. exact prefix_consistent_lemma. Qed.
 
-  (* every frame below the reported count holds exactly the bytes the writer
-     wrote (and will have written at the end) for that frame *)
-  Theorem prefix_consistent : forall j f, f < nframes fsz (at_ j) ->
-    frame fsz (at_ j) f = frame fsz (content_at st p ++ concat chunks) f.
-  Proof. intros. apply frame_prefix; auto. apply writer_prefix_final; auto. Qed.
+(* a partially written trailing sample or frame is never inside a reported frame *)
+Theorem no_partial : forall d p chunks st fsz, fsz <> 0 ->
+  forall j f, f < nframes fsz (at_ d p chunks st j) -> length (frame fsz (at_ d p chunks st j) f) = fsz.
+Proof. exact no_partial_lemma. Qed.
 
-  (* a partially written trailing sample or frame is never inside a reported frame *)
-  Theorem no_partial : forall j f, f < nframes fsz (at_ j) -> length (frame fsz (at_ j) f) = fsz.
-  Proof. intros. apply frame_complete; auto. Qed.
-
-  (* once the writer has opened it the file is never absent *)
-  Theorem never_absent_in_place : forall j, lookup (crash (writer_trace d p chunks) (S j) st) p <> None.
-  Proof. intros. apply writer_content; auto. Qed.
-End Fresh.
+(* once the writer has opened it the file is never absent *)
+Theorem never_absent_in_place : forall d p chunks st, fs_wf st ->
+  forall j, lookup (crash (writer_trace d p chunks) (S j) st) p <> None.
+Proof. exact never_absent_in_place_lemma. Qed.
 
 (* out-of-place encodings publish by rename only: at every instant of a
    publication the data file holds its complete previous or its complete new
@@ -41,10 +39,19 @@ Theorem never_absent_out_of_place : forall cl tfd f k j st, scen_ok [f] st -> lo
   (lookup (crash (mf_trace cl tfd [f] false k) j st) (fpath f) = lookup st (fpath f) \/
    lookup (crash (mf_trace cl tfd [f] false k) j st) (fpath f) = Some (new_text f)) /\
   lookup (crash (mf_trace cl tfd [f] false k) j st) (fpath f) <> None.
-Proof.
-  intros cl tfd f k j st S H.
-  destruct (crash_atomic_lemma cl tfd [f] k j st S f (or_introl eq_refl)) as [E | E]; rewrite E; split; auto; discriminate.
-Qed.
+Proof. exact never_absent_oop_lemma. Qed.
+
+(* a SEQUENCE of out-of-place publications (periodic flushes of a gzip / bzip2 /
+   lzma field): after any number j of the writer's calls the data file holds
+   exactly version done_count(j) -- never absent, never a mixture -- and the
+   version index never decreases and never exceeds the number of publications *)
+Theorem oop_sequence_version : forall cl tfd p pubs st j, pubs_ok p pubs st ->
+  lookup (crash (seq_trace cl tfd pubs) j st) p = ver p pubs st (done_count cl tfd pubs j).
+Proof. exact seq_version. Qed.
+
+Theorem oop_sequence_monotone : forall cl tfd pubs j j', j <= j' ->
+  done_count cl tfd pubs j <= done_count cl tfd pubs j' /\ done_count cl tfd pubs j' <= length pubs.
+Proof. exact done_count_bounds. Qed.
 
 (* full statement for a handle that stays open (fx = the instance of
    _GD_RawRead): a read through an aligned handle returns exactly the bytes of
@@ -70,9 +77,7 @@ Proof. exact desync_witness. Qed.
 
 Theorem long_lived_refuted_statement : ~ long_lived_consistent_statement false.
 Proof.
-  intros H.
-  destruct (H 2 dz_c1 (mkrd 0 0) 0 10 ltac:(discriminate) eq_refl) as (_ & A & _).
-  vm_compute in A. discriminate.
+  exact (long_lived_refuted_lemma _ (fun H sz c r s0 n Hz A => proj1 (proj2 (H sz c r s0 n Hz A)))).
 Qed.
 
 (* the instance that describes the current source *)
